@@ -307,7 +307,6 @@ Definition step_problem (st : pstate) (o : op) : result :=
       end
   | ONewSelect id listed n k =>
       if negb (forallb (rref_exists st) listed) then Unsupported
-      else if existsb (fun r => match r with RC _ => true | _ => false end) listed then Unsupported
       else if negb ((2 <=? Z.of_nat (length listed)) && posz n && (n <=? Z.of_nat (length listed))) then Err
       else if negb (Nat.eqb (length (nodup rref_eq_dec listed)) (length listed)) then Unsupported
       else match find_select st (SUser id) with
@@ -349,6 +348,8 @@ Definition step_problem (st : pstate) (o : op) : result :=
             match find_cumul st c with
             | None => Unsupported
             | Some cu =>
+              (* the cumulative object itself is in the required list when it was listed in a selection *)
+              if existsb (rref_beq (RC c)) (reqs_of st tid) then Err else
               let sr := {| s_ref := SAuto (ps_nauto st); s_listed := map RW (units_of cu); s_n := 1; s_kind := PbMin |} in
               let st1 := add_select st t sr in
               Ok {| ps_horizon := ps_horizon st1; ps_tasks := ps_tasks st1; ps_workers := ps_workers st1;
